@@ -367,8 +367,21 @@ pub fn quiet_panics() {
         LAST_PANIC_LOCATION.with(|l| {
             *l.borrow_mut() = info.location().map(|l| format!("{}:{}", l.file(), l.line()));
         });
+        // A panic on a GC worker thread cannot be caught by the harness thread: hand it to the
+        // registered handler (which reports the current execution as failed and exits).
+        let th = std::thread::current();
+        if th.name().map(|n| n.starts_with("gcworker")).unwrap_or(false) {
+            let msg = format!("{}", info);
+            if let Some(h) = WORKER_PANIC_HANDLER.get() {
+                h(&msg);
+            }
+            eprintln!("GC worker panicked: {}", msg);
+            std::process::exit(3);
+        }
     }));
 }
+
+pub static WORKER_PANIC_HANDLER: std::sync::OnceLock<Box<dyn Fn(&str) + Send + Sync>> = std::sync::OnceLock::new();
 
 thread_local! {
     pub static LAST_PANIC_LOCATION: std::cell::RefCell<Option<String>> = const { std::cell::RefCell::new(None) };
